@@ -17,6 +17,7 @@ Stubs (installed by rebinding names in the namespaces of the real pharmpy module
   ValueError message would otherwise realise the float.
 """
 import os
+import sys
 from pathlib import Path
 
 import pharmpy.internals.immutable as IM
@@ -29,12 +30,56 @@ from pharmpy.internals.immutable import frozenmapping
 
 THOROUGH = os.environ.get('VH_TIER', 'quick') == 'thorough'
 
+
+def _force_ieee_floats():
+    """CrossHair models `float` either by z3 reals (default, 98%) or by the z3 floating-point theory.  Every path
+    through the real-number model is capped at "unknown" by CrossHair itself (it is an approximation), so symbolic
+    floats could never be confirmed.  Under CrossHair this harness selects the exact IEEE-754 binary64 model
+    (NaN, +-inf, -0.0 included) as the only representation.  No effect outside CrossHair (concrete replay)."""
+    bl = sys.modules.get('crosshair.libimpl.builtinslib')
+    if bl is not None and hasattr(bl, 'PreciseIeeeSymbolicFloat') and hasattr(bl, '_PYTYPE_TO_WRAPPER_TYPE'):
+        bl._PYTYPE_TO_WRAPPER_TYPE[float] = ((bl.PreciseIeeeSymbolicFloat, 1.0),)
+
+
+_force_ieee_floats()
+
 PHARMPY_VALUE_CLASSES = (P.Parameter, P.Parameters, D.ColumnInfo, D.DataInfo, R.VariabilityLevel,
                          R.VariabilityHierarchy, X.ExecutionStep, X.ExecutionSteps, frozenmapping)
 _HASH_MODULES = (P, D, X, R, IM)
 
 # concrete tables; a symbolic index selects the entry (sympy-backed values cannot be symbolic)
-UNITS = [Unit.unitless(), Unit('kg'), Unit('mg/L'), Unit('h')]
+UNIT_SOURCES = [1, 'kg', 'mg/L', 'h']
+UNITS = [Unit.unitless()] + [Unit(x) for x in UNIT_SOURCES[1:]]
+
+
+class UnitMemo:
+    """Stands for the name `Unit` inside pharmpy.model.datainfo.  `Unit(x)` substitutes ~200 sympy unit symbols,
+    which takes tens of seconds per call under CrossHair's tracer; the units used by the harness are computed once
+    at import by the real `Unit` code and looked up here (Unit(u) for a Unit u returns u: the real constructor copies
+    the expression).  A source that was not precomputed falls through to the real class."""
+
+    def __init__(self):
+        self.by_source = {}
+        for src, u in zip(UNIT_SOURCES, UNITS):
+            self.by_source[src] = u
+            self.by_source[u.serialize()] = Unit.deserialize(u.serialize())
+            self.by_source[str(u)] = Unit(str(u))
+
+    def __call__(self, source):
+        if isinstance(source, Unit):
+            return source
+        if isinstance(source, (str, int)) and source in self.by_source:
+            return self.by_source[source]
+        return Unit(source)
+
+    def unitless(self):
+        return UNITS[0]
+
+    def deserialize(self, s):
+        return self(s)
+
+
+D.Unit = UnitMemo()
 
 
 # ---------------------------------------------------------------------------------------------------------
@@ -278,11 +323,12 @@ def mk_param(name, init, lower, upper, fix):
 
 
 def reach_param(p):
-    try:
-        q = P.Parameter.create(p._name, p._init, p._lower, p._upper, p._fix)
-    except Exception:
-        return False
-    return same_fields(p, q)
+    with num_float_mode():      # the ValueError message must not realise the floats
+        try:
+            q = P.Parameter.create(p._name, p._init, p._lower, p._upper, p._fix)
+        except Exception:
+            return False
+        return same_fields(p, q)
 
 
 def mk_params(ps):
@@ -297,8 +343,12 @@ def reach_params(ps):
     return all(reach_param(p) for p in ps._params) and len(q) == len(ps)
 
 
-def mk_cats(kind, c1, c2):
-    """kind 0: None, 1: tuple (c1,), 2: tuple (c1, c2), 3: mapping {c1: c2}, 4: mapping {c1: c2, c2: c1}"""
+KEYS = ['a', 'b', 'c']   # dict keys are hashed by the interpreter, so they are concrete: a symbolic index selects
+
+
+def mk_cats(kind, c1, c2, key=0):
+    """kind 0: None, 1: tuple (c1,), 2: tuple (c1, c2), 3: mapping {KEYS[key]: c1},
+    4: mapping {KEYS[key]: c1, KEYS[key+1]: c2}"""
     if kind == 0:
         return None
     if kind == 1:
@@ -306,8 +356,8 @@ def mk_cats(kind, c1, c2):
     if kind == 2:
         return (c1, c2)
     if kind == 3:
-        return frozenmapping({c1: c2})
-    return frozenmapping({c1: c2, c2: c1})
+        return frozenmapping({KEYS[key]: c1})
+    return frozenmapping({KEYS[key]: c1, KEYS[(key + 1) % len(KEYS)]: c2})
 
 
 def mk_col(name, type, unit_i, scale, continuous, cats, drop, datatype, descriptor):
@@ -357,11 +407,12 @@ def reach_vh(h):
 
 
 def mk_opts(n, k1, v1, k2, v2):
+    """k1, k2: indexes into KEYS"""
     if n == 0:
         return frozenmapping({})
     if n == 1:
-        return frozenmapping({k1: v1})
-    return frozenmapping({k1: v1, k2: v2})
+        return frozenmapping({KEYS[k1]: v1})
+    return frozenmapping({KEYS[k1]: v1, KEYS[k2]: v2})
 
 
 def mk_strs(n, s1, s2):
